@@ -2,6 +2,7 @@
   ConcatenatedLazyIndexer, whole request: lifting the head-axis split to the tail axes.
 -/
 import KatdalModel.Lemmas.ConcatList
+import KatdalModel.Lemmas.Compose
 open Np Index LazyIx
 
 namespace LazyIx
@@ -34,5 +35,76 @@ theorem mapM_locate_ok (lens : List Nat) : ∀ (gs : List Nat), (∀ g ∈ gs, g
       | succ j =>
         have : j < t.length := by simpa using hj
         simpa using hget j this
+
+theorem partLens_ne_nil {α} (parts : List (NDArr α)) (h : parts ≠ []) : partLens parts ≠ [] := by
+  cases parts with
+  | nil => exact absurd rfl h
+  | cons a t => simp [partLens]
+
+/-- whole request of the concatenated indexer = the same key on the concatenation, given that the head-axis
+    split agrees with the spec (which `concatHead_int/_slice/_mask/_list` establish on the grammar) -/
+theorem concatFull_eq_spec_of {α} [Inhabited α] (parts : List (NDArr α))
+    (tailShape : List Nat) (ix : Ix) (tails : List (List Nat))
+    (hhead : concatHead (partLens parts) ix = concatSpec (partLens parts) ix)
+    (hre : ((match (generalizing := false) ix with | .slice _ _ _ => true | .mask _ => true | _ => false) &&
+      tails.any (·.isEmpty)) = false) :
+    match concatFullSpec parts tailShape ix tails with
+    | .error e => concatFull parts ix tails = .error e
+    | .ok s => ∃ r, concatFull parts ix tails = .ok r ∧ r.shape = s.shape ∧
+        ∀ js, Index.inBounds s.shape js → r.get js = s.get js := by
+  unfold concatFullSpec concatFull
+  simp only [hhead, concatSpec, hre]
+  cases hres : ix.resolve (total (partLens parts)) with
+  | error e => simp [bind, Except.bind]
+  | ok sel =>
+    have hv := resolve_valid _ ix sel hres
+    cases sel with
+    | one g =>
+      obtain ⟨pr, hpr⟩ := locate_some_of_lt _ g hv
+      simp only [bind, Except.bind, pure, Except.pure, hpr]
+      refine ⟨_, rfl, rfl, ?_⟩
+      intro js _
+      simp [oindexSel, pickCoords, concatArr, hpr]
+    | many gs =>
+      obtain ⟨prs, hm, hl, hget⟩ := mapM_locate_ok _ gs hv
+      simp only [bind, Except.bind, pure, Except.pure]
+      generalize hX : List.mapM (m := Except Err) (β := Nat × Nat) _ gs = X
+      have hX' : X = .ok prs := hX.symm.trans hm
+      subst hX'
+      dsimp only
+      simp only [Bool.false_eq_true, if_false]
+      rw [if_neg (fun hc => absurd ((hc.symm.trans hre : true = false)) (by decide))]
+      refine ⟨_, rfl, ?_, ?_⟩
+      · simp [oindexSel, selShape, hl]
+      intro js hjs
+      simp only [oindexSel, selShape] at hjs
+      cases js with
+      | nil => exact absurd hjs (by simp [Index.inBounds])
+      | cons j t =>
+        have hj' : j < gs.length := hjs.1
+        have hg := hget j hj'
+        simp only [List.getD_eq_getElem?_getD] at hg
+        simp [oindexSel, pickCoords, concatArr, hg]
+
+theorem any_isEmpty_false_of_ne_nil (tails : List (List Nat)) (hne : ∀ t ∈ tails, t ≠ []) :
+    tails.any (·.isEmpty) = false := by
+  rw [List.any_eq_false]
+  intro t ht
+  have := hne t ht
+  cases t with
+  | nil => exact absurd rfl this
+  | cons _ _ => simp
+
+/-- tail keys without empty selections: every head form -/
+theorem concatFull_eq_spec {α} [Inhabited α] (parts : List (NDArr α))
+    (tailShape : List Nat) (ix : Ix) (tails : List (List Nat))
+    (hhead : concatHead (partLens parts) ix = concatSpec (partLens parts) ix)
+    (hne : ∀ t ∈ tails, t ≠ []) :
+    match concatFullSpec parts tailShape ix tails with
+    | .error e => concatFull parts ix tails = .error e
+    | .ok s => ∃ r, concatFull parts ix tails = .ok r ∧ r.shape = s.shape ∧
+        ∀ js, Index.inBounds s.shape js → r.get js = s.get js :=
+  concatFull_eq_spec_of parts tailShape ix tails hhead
+    (by rw [any_isEmpty_false_of_ne_nil tails hne, Bool.and_false])
 
 end LazyIx
